@@ -63,11 +63,11 @@ var checks = map[string]checkCfg{
 		Real: realCommon, Stub: stubCommon,
 		Assume: []string{"watchdog 30 s real time is far above the slowest step (<1 s)"}},
 	"C10": {Engine: "mgrsim", QuickS: 60, ThoroughS: 1200, Level: "exploration",
-		Rule: "one case = one seeded plan and schedule; views are opened at seeded steps (empty service, between import body and completion, across merges) and compared (a) with a one-shot reference import of exactly the captures whose completion was applied, (b) with themselves at every later read. distinct = distinct schedule signature; non-trivial = a view was opened while jobs were in flight or re-read after further steps",
+		Rule: "one case = one seeded plan and schedule; views are opened at seeded steps (empty service, between import body and completion, across merges) and compared (a) with a one-shot reference import of exactly the captures whose completion was applied, (b) with themselves at every later read (stream list and a fixed battery of searches, three of them read page by page: no stream twice, none foreign, unfiltered searches complete; by-id lookups return the listed version and nothing the view does not list). distinct = distinct schedule signature; non-trivial = a view was opened while jobs were in flight or re-read after further steps",
 		Real: realCommon, Stub: stubCommon,
 		Assume: []string{"a view counts as opened at its first use", "one-shot import is the reference (C05/C08)"}},
 	"C11": {Engine: "mgrsim", QuickS: 40, ThoroughS: 1200, Level: "exploration",
-		Rule: "one case = one seeded sequence of valid and invalid tag API calls (bad names, dangling/self/cyclic references, marks on stream 0 and unknown ids, unknown converters, renames onto existing names) interleaved with jobs, a quarter of the plans with a clean restart in between; after every call the tag table projection is compared with a model (rejected => unchanged, accepted => exactly the requested change), the graph is checked (no dangling reference, no cycle, referenced mirrors definitions); a crash of the worker or a watchdog timeout is a violation. distinct = distinct schedule signature",
+		Rule: "one case = one seeded sequence of valid and invalid tag API calls (bad names, dangling/self/cyclic references, marks on stream 0 and unknown ids, unknown converters, renames onto existing names) interleaved with jobs, a quarter of the plans with a clean restart in between; after every call the tag table projection is compared with a model (rejected => unchanged, accepted => exactly the requested change), the graph is checked (no dangling reference, no cycle, referenced mirrors definitions), a mark operation must leave a definition that is a query and denotes the tag's decided matches, and streams added to a mark tag by acknowledged calls must stay marked until a call takes them back; a crash of the worker or a watchdog timeout is a violation. distinct = distinct schedule signature",
 		Real: realCommon, Stub: stubCommon,
 		Assume: []string{"which of {applied, rejected} happens is only prescribed where the property names it"}},
 	"C12": {Engine: "mgrsim", Engine2: "cachesim", Engine2Every: 6, QuickS: 60, ThoroughS: 1500, Level: "fault_enumeration",
